@@ -284,6 +284,45 @@ func (w *c33World) consumer(timeout time.Duration, pause time.Duration, lateRead
 	if len(extra) > 0 {
 		r.Probe("late_arrival_may_set")
 	}
+	// ---- "whatever the order in which responses and errors arrive" ----
+	// WaitForResults came back by itself (not by the consumer's deadline): the processor declared
+	// the exchange decided. Whether the exchange ends in a response or in an error must then be a
+	// function of the multiset of responses the providers give, not of their arrival order: if the
+	// complete multiset (every provider that answers at all, arrived yet or not) contains an
+	// agreeing group of at least the threshold, some arrival order of the same responses yields
+	// data, so no arrival order may yield an error. (A quorum found early can only lead to data;
+	// without early quorum the processor has to keep waiting for the outstanding sessions.)
+	if errWait == nil {
+		var answering []int
+		outstanding := 0
+		for _, x := range w.resps {
+			if !x.noReply {
+				answering = append(answering, x.id)
+				if !x.delivered {
+					outstanding++
+				}
+			}
+		}
+		stAll := w.stats(answering)
+		quorumInAll := stAll.maxNE >= w.threshold || stAll.empties >= w.threshold
+		r.OracleEvals++
+		if quorumInAll {
+			r.Probe("wait_ended_by_itself_quorum_in_complete_multiset")
+			if outstanding > 0 {
+				r.Probe("wait_ended_by_itself_with_responses_outstanding")
+			}
+		}
+		if isErr && quorumInAll {
+			var parts []string
+			for _, id := range answering {
+				parts = append(parts, w.resps[id].String())
+			}
+			r.SetViolation("cv-verdict-depends-on-arrival-order", "error-although-complete-multiset-has-quorum",
+				fmt.Sprintf("WaitForResults ended by itself (no deadline) and ProcessingResult returned an error, although the responses of this exchange contain an agreeing group of at least the threshold (%d): in another arrival order the same responses return data. threshold=%d maxParticipants=%d; handled before ProcessingResult (in arrival order): %v; delivered later: %v; not yet delivered: %d; all answering providers: [%s]",
+					w.threshold, w.threshold, w.maxPart, must, extra, outstanding, strings.Join(parts, "; ")))
+			return
+		}
+	}
 	if len(extra) > 12 {
 		r.Probe("c33_too_many_candidates")
 		return
@@ -509,7 +548,7 @@ func init() {
 		NonTrivial: func(r *simrt.Run) bool {
 			return r.Ops["deliver:ok"] >= 2 && r.Switches >= 15 && (r.Ops["process:ok"]+r.Ops["process:error"]) >= 1
 		},
-		Rule:    "one cross-validation relay per run: maxParticipants 1-6, agreementThreshold 1..maxParticipants (parsed by the real state-machine constructor from the directive headers), one session per participant (sometimes fewer); every provider is a task that after a tape-chosen latency (0-30 ms, many equal) releases its session and calls RelayProcessor.SetResponse with a success (1-3 payload variants that share a 0/40/300-byte prefix and differ in one byte, or an empty/nil payload), a node error (HTTP 5xx or cosmos tx error; body often identical to a success variant), a protocol error (with/without reply) or never answers; the consumer task calls WaitForResults (deadline 3 ms - 10 s) then, after a tape-chosen pause, ProcessingResult, optionally with a concurrent late reader (as the state machine starts after gotResults) that keeps handling late responses. The token-passing scheduler picks the next task at every lock/channel/select of the instrumented relaycore code and UsedProviders. Oracle over every candidate set S with (responses handled before ProcessingResult started) <= S <= (responses delivered before it returned). Non-trivial = >=2 delivered responses, >=15 context switches and a processed outcome; distinct = (op,outcome,fault) sequence x context-switch sequence",
+		Rule:    "one cross-validation relay per run: maxParticipants 1-6, agreementThreshold 1..maxParticipants (parsed by the real state-machine constructor from the directive headers), one session per participant (sometimes fewer); every provider is a task that after a tape-chosen latency (0-30 ms, many equal) releases its session and calls RelayProcessor.SetResponse with a success (1-3 payload variants that share a 0/40/300-byte prefix and differ in one byte, or an empty/nil payload), a node error (HTTP 5xx or cosmos tx error; body often identical to a success variant), a protocol error (with/without reply) or never answers; the consumer task calls WaitForResults (deadline 3 ms - 10 s) then, after a tape-chosen pause, ProcessingResult, optionally with a concurrent late reader (as the state machine starts after gotResults) that keeps handling late responses. The token-passing scheduler picks the next task at every lock/channel/select of the instrumented relaycore code and UsedProviders. Oracle over every candidate set S with (responses handled before ProcessingResult started) <= S <= (responses delivered before it returned); plus arrival-order independence of the verdict: when WaitForResults ends by itself (not by the deadline) an error is accepted only if the complete multiset of responses of the answering providers (arrived or still outstanding) holds no agreeing group of the threshold size. Non-trivial = >=2 delivered responses, >=15 context switches and a processed outcome; distinct = (op,outcome,fault) sequence x context-switch sequence",
 		Real:    []string{"protocol/relaycore RelayProcessor, ResultsManagerInst, RelayErrors, UnifiedRelayStateMachine constructor (instrumented copies through the build overlay; map ranges through the map-order seam)", "protocol/lavasession UsedProviders (instrumented)", "protocol/chainlib REST chain parser + LAV1 spec from /repo/specs (node-error detection CheckResponseError)", "cross-validation directive header parsing (chainlib.BaseProtocolMessage.GetCrossValidationParameters)"},
 		Stubbed: []string{"providers and the relay transport (delivery tasks calling RemoveUsed + SetResponse in the consumer's order)", "the consumer's caller (task: WaitForResults -> ProcessingResult)", "RelayRetriesManager with a nil ristretto cache (the consumer side only writes to it)", "consistency = nil, metrics = no-op", "clock: synctest fake time"},
 		Assume:  []string{"code between two instrumented synchronisation points is atomic in the simulation (every simulated schedule is a real schedule, not vice versa)", "\"received before processing\" is bracketed: must = responses taken from the processor's FIFO channel and fully handled before ProcessingResult was called, may = everything delivered by SetResponse before it returned; an outcome is accepted if it is right for any set in between", "a response is successful iff Err == nil and the chain message's CheckResponseError finds no node error; every successful response carries a Reply", "the waiting context only expires by its deadline (no explicit cancel racing with deliveries), so no select ever has two ready cases"},
